@@ -531,7 +531,7 @@ def _run_cfg(ctx, cfg):
                     pos[p] = [x["pos"] for x in st]
         scenarios.append(dict(sid=sid, pos=pos))
     # split over a few session processes (each pays the JAX start-up once)
-    nsess = ctx.n(3, 6)
+    nsess = ctx.n(2, 6)
     chunks = [scenarios[i::nsess] for i in range(nsess)]
     mc = {p: mo[p]["coarse"] for p in protos}
     try:
